@@ -132,27 +132,34 @@ def main():
         # driver with its own orchestration (several engines)
         rc = mod.main(tier, seed, args)
         sys.exit(rc)
+    results, tree_hash = run_mirsym(prop, mod, tier, seed, args)
+    rc = finish(prop, tier, seed, mod, results, t0, tree_hash, no_replay=args.no_replay)
+    sys.exit(rc)
+
+
+def run_mirsym(prop, mod, tier, seed, args, shapes=None, modname=None):
     try:
         mir_path, tree_hash = mirgen.ensure_mir(REPO, VCACHE)
     except Exception as e:
         print('INCONCLUSIVE: cannot produce MIR of the current tree: %s' % e)
         sys.exit(2)
     timeout_ms = 60000 if tier == 'quick' else 600000
-    shapes = mod.shapes(tier)
-    if args.only:
+    if shapes is None:
+        shapes = mod.shapes(tier)
+    if getattr(args, 'only', None):
         shapes = [s for s in shapes if args.only in repr(s)]
     random.Random(seed).shuffle(shapes)
-    jobs = [(prop.lower(), tier, s, mir_path, timeout_ms, seed) for s in shapes]
+    jobs = [(modname or prop.lower(), tier, s, mir_path, timeout_ms, seed) for s in shapes]
     results = []
-    if args.procs <= 1:
+    procs = getattr(args, 'procs', 16)
+    if procs <= 1:
         for j in jobs:
             results.append(_worker(j))
     else:
-        with multiprocessing.Pool(args.procs) as pool:
+        with multiprocessing.Pool(procs) as pool:
             for r in pool.imap_unordered(_worker, jobs, chunksize=1):
                 results.append(r)
-    rc = finish(prop, tier, seed, mod, results, t0, tree_hash, no_replay=args.no_replay)
-    sys.exit(rc)
+    return results, tree_hash
 
 
 def finish(prop, tier, seed, mod, results, t0, tree_hash, no_replay=False, extra=None):
@@ -193,7 +200,7 @@ def finish(prop, tier, seed, mod, results, t0, tree_hash, no_replay=False, extra
             mismatches.append(dict(error=str(e)[:1500]))
     # dedupe by structural signature
     by_sig = collections.OrderedDict()
-    for v in violations + (panics if getattr(mod, 'PANICS_ARE_VIOLATIONS', True) else []):
+    for v in violations + (panics if getattr(mod, 'PANICS_ARE_VIOLATIONS', True) else []) + list((extra or {}).get('violations', [])):
         by_sig.setdefault(v['signature'], v)
     known = load_known(prop)
     out_lines = []
@@ -237,6 +244,9 @@ def finish(prop, tier, seed, mod, results, t0, tree_hash, no_replay=False, extra
         if errs:
             for r in errs[:5]:
                 print('INCONCLUSIVE shape=%r: %s' % (r['shape'], r['err']))
+            rc = 2
+        for msg in (extra or {}).get('inconclusive', []):
+            print('INCONCLUSIVE: %s' % msg)
             rc = 2
         if nonrepro:
             for sig, path, detail in nonrepro[:5]:
